@@ -274,6 +274,7 @@ Proof.
       by (destruct (io_calls w cs) as [w' [e|]]; reflexivity).
     rewrite X. apply (ro_core w); [exact RO | apply io_calls_ro; assumption].
   - destruct RO as [H D]. split; [split; assumption | reflexivity].
+  - destruct (close_ro w RO) as (A & B & N & _). destruct (close w) as [w1 e1]. cbn [fst snd] in *. subst e1. cbn [seq fst]. auto.
 Qed.
 
 Lemma run_cons o r w :
@@ -405,6 +406,7 @@ Proof.
     + simpl. apply io_calls_inv.
   - destruct (io_calls_inv cs w) as (_ & E & _). destruct (io_calls w cs) as [w' [e|]]; exact E.
   - repeat split.
+  - destruct (close_inv w) as (E0 & _). destruct (close w) as [w1 [e1|]]; exact E0.
 Qed.
 
 Lemma step_extends w o : extends w (fst (step w o)).
@@ -437,6 +439,7 @@ Proof.
     + simpl. apply io_calls_inv.
   - destruct (io_calls_inv cs w) as (_ & _ & X). destruct (io_calls w cs) as [w' [e|]]; exact X.
   - apply extends_set_repack.
+  - destruct (close_inv w) as (_ & X0). destruct (close w) as [w1 [e1|]]; exact X0.
 Qed.
 
 Lemma run_block_inv ops : forall w, same_env w (fst (run_block ops w)) /\ extends w (fst (run_block ops w)).
@@ -529,6 +532,15 @@ Proof.
     simpl in T, RD. apply andb_true_iff in T as [T1 T2]. apply andb_true_iff in RD as [R1 R2].
     apply negb_true_iff in T1, R1. unfold io_call. rewrite H2, R1, T1. simpl.
     destruct (c_writer c), (c_repack c); apply IH; auto.
+Qed.
+
+(* a save_as whose copy fails: the workspace is closed exactly as by close(), the error is reported *)
+Lemma failed_save_as_proof : forall w,
+  close_fault w = false ->
+  fst (step w SaveAsFail) = fst (close w) /\ snd (step w SaveAsFail) = Some EFail /\ handle_of (fst (step w SaveAsFail)) = Closed.
+Proof.
+  intros w CF. simpl. destruct (close_closes 0 w CF) as (H & N & _). fold close in H, N.
+  destruct (close w) as [w1 e1]. cbn [fst snd] in *. subst e1. cbn [seq fst snd]. auto.
 Qed.
 
 (* a block of plain operations on a writable workspace: everything that completed before the exit is in the file, in order,
